@@ -18,6 +18,7 @@
  */
 
 use air_interpreter_data::TraceLen;
+use num_traits::CheckedAdd;
 
 use super::ExecutedState;
 use super::ExecutionTrace;
@@ -73,7 +74,12 @@ impl TraceSlider {
 
     pub(crate) fn set_position_and_len(&mut self, position: TracePos, subtrace_len: TraceLen) -> KeeperResult<()> {
         // it's possible to set empty subtrace_len and inconsistent position
-        if subtrace_len != 0 && position + subtrace_len > self.trace.trace_states_count().into() {
+        // position and length come from incoming data (fold lore): the sum must not overflow
+        let end_is_outside = match position.checked_add(&TracePos::from(subtrace_len)) {
+            Some(end) => end > self.trace.trace_states_count().into(),
+            None => true,
+        };
+        if subtrace_len != 0 && end_is_outside {
             return Err(SetSubtraceLenAndPosFailed {
                 requested_pos: position,
                 requested_subtrace_len: subtrace_len,
